@@ -416,6 +416,7 @@ func main() {
 	run.CheckFn = "check"
 	run.DiagFn = "diag"
 	run.CaseType = "case"
+	run.ShardSize = 250
 	run.Rule = "format cases: every codec (ISD, AS, IA, FormatISD/AS/IA, SVC, host, addr) x boundary values " +
 		"(0, 1, 2^16-1, 2^16, 2^32-1, 2^32, 2^48-1, 2^48, 2^64-1 ...) + random x all option combinations over " +
 		"separators ':' '_' '.' '' '::' ... (and ambiguous ones '-', 'a', '0'); the implementation's text is parsed " +
@@ -457,16 +458,16 @@ func main() {
 
 	// 1. boundary values: plain codecs, and every option combination for the Format* codecs
 	for k := kISD; k <= kFIA; k++ {
-		for _, v := range bounds {
+		for vi, v := range bounds {
 			v = clampFor(k, v)
 			if !hasOpts(k) {
 				addFmt(k, nil, v)
 				continue
 			}
 			for ci, os := range combos {
-				// quick tier: every combination on a rotating third of the boundary values
-				if run.Tier != "thorough" && k != kFISD && (ci+int(v%3))%3 != 0 && ci > 8 {
-					run.Tally("skipped-combo")
+				// quick tier: the basic combinations always, the others rotate over the boundary values
+				if run.Tier != "thorough" && ci > 2 && (ci+vi)%6 != 0 {
+					run.Tally("combo-left-to-thorough")
 					continue
 				}
 				addFmt(k, os, v)
@@ -477,7 +478,7 @@ func main() {
 		addFmt(kSVC, nil, v)
 	}
 	// 2. random values x random option combinations
-	n := run.Count(500, 40000)
+	n := run.Count(400, 40000)
 	for i := 0; i < n; i++ {
 		r := rng.Fork(uint64(i))
 		k := vgen.Pick(r, kISD, kAS, kAS, kIA, kIA, kFISD, kFAS, kFAS, kFAS, kFIA, kFIA, kFIA)
@@ -499,7 +500,11 @@ func main() {
 				addParse(k, nil, s, true)
 				continue
 			}
-			for _, os := range [][]opt{{}, {{prefix: true}}, {{sep: "_"}}, {{sep: ""}}, {{prefix: true}, {sep: "."}}} {
+			tabOpts := [][]opt{{}, {{sep: ""}}, {{prefix: true}, {sep: "."}}}
+			if run.Tier == "thorough" {
+				tabOpts = append(tabOpts, []opt{{prefix: true}}, []opt{{sep: "_"}}, []opt{{sep: "::"}, {prefix: true}})
+			}
+			for _, os := range tabOpts {
 				t := strings.ReplaceAll(s, ":", effSep(os))
 				addParse(k, os, withPrefix(k, os, t), true)
 				if len(os) > 0 && os[0].prefix {
@@ -509,7 +514,7 @@ func main() {
 		}
 	}
 	// 4. parse: mutations of valid text and random strings
-	m := run.Count(900, 60000)
+	m := run.Count(600, 60000)
 	for i := 0; i < m; i++ {
 		r := rng.Fork(uint64(5000000 + i))
 		k := vgen.Pick(r, kISD, kAS, kAS, kIA, kIA, kFISD, kFAS, kFAS, kFIA, kFIA, kFIA, kSVC)
@@ -542,7 +547,7 @@ func main() {
 		addParse(k, os, s, nontriv)
 	}
 	// 5. hosts and full addresses
-	nh := run.Count(250, 10000)
+	nh := run.Count(150, 10000)
 	for i := 0; i < nh; i++ {
 		r := rng.Fork(uint64(9000000 + i))
 		h := randHost(r)
@@ -579,7 +584,7 @@ func main() {
 	hostTexts := []string{"", "1.2.3.4", "1.2.3.04", "1.2.3", "256.1.1.1", "::", "::1", "2001:DB8::1", "2001:db8::1",
 		"::ffff:1.2.3.4", "fe80::1%eth0", "fe80::1%", "[::1]", "::1 ", "1.2.3.4:80", "CS", "CS_A", "CS_M", "DS", "Wildcard_M",
 		"cs", "CS_A_A", "<None>", "invalid IP", "localhost", "1.2.3.4,CS", "0:0:0:0:0:0:0:1", "00:0:0:0:0:0:0:1"}
-	np := run.Count(250, 10000)
+	np := run.Count(150, 10000)
 	for i := 0; i < np+len(hostTexts); i++ {
 		r := rng.Fork(uint64(12000000 + i))
 		var s string
